@@ -141,6 +141,8 @@ func lenPreserving(fn *ssa.Function) int {
 type lenChecker struct {
 	ctx     *Ctx
 	sameLen map[*ssa.Function]int
+	// noCallers: do not derive bounds for a parameter from the call sites of its function
+	noCallers bool
 }
 
 func lenCallOf(v ssa.Value) (ssa.Value, bool) {
@@ -180,6 +182,17 @@ func (lc *lenChecker) minLen(x ssa.Value, at *ssa.BasicBlock, depth int) int64 {
 		}
 	}
 	for _, g := range branchGuards(at) {
+		// a predicate helper, `if isVertexLine(tokens) {`: what its true result implies
+		if c, isCall := g.cond.(*ssa.Call); isCall && g.val {
+			if f := c.Call.StaticCallee(); f != nil && inModule(f) && len(f.Blocks) > 0 && len(f.Params) == len(c.Call.Args) {
+				for j, a := range c.Call.Args {
+					if sameSlice(a, x) {
+						up(lc.lenWhenTrue(f, f.Params[j], depth+1))
+					}
+				}
+			}
+			continue
+		}
 		bo, ok := g.cond.(*ssa.BinOp)
 		if !ok {
 			continue
@@ -220,6 +233,9 @@ func (lc *lenChecker) minLen(x ssa.Value, at *ssa.BasicBlock, depth int) int64 {
 			}
 		}
 		refs := refsTo(lc.ctx, fn)
+		if lc.noCallers {
+			refs = nil
+		}
 		if pi >= 0 && len(refs) > 0 && fn.Object() != nil && !fn.Object().Exported() {
 			least := int64(-2)
 			for _, ref := range refs {
@@ -320,6 +336,80 @@ func (lc *lenChecker) minLen(x ssa.Value, at *ssa.BasicBlock, depth int) int64 {
 		}
 	}
 	return best
+}
+
+// lenWhenTrue: a lower bound of len(p) that holds whenever the boolean function fn returns true
+// (p one of its parameters): the guards that dominate each way of producing a true result,
+// the least over those ways.
+func (lc *lenChecker) lenWhenTrue(fn *ssa.Function, p *ssa.Parameter, depth int) int64 {
+	const impossible = int64(1) << 40
+	var when func(v ssa.Value, blk *ssa.BasicBlock, d int) int64
+	when = func(v ssa.Value, blk *ssa.BasicBlock, d int) int64 {
+		if d > 6 {
+			return -1
+		}
+		here := lc.minLenLocal(p, blk, depth)
+		switch x := v.(type) {
+		case *ssa.Const:
+			if x.Value != nil && x.Value.Kind() == constant.Bool && !constant.BoolVal(x.Value) {
+				return impossible
+			}
+			return here
+		case *ssa.Phi:
+			least := impossible
+			for i, e := range x.Edges {
+				if b := when(e, x.Block().Preds[i], d+1); b < least {
+					least = b
+				}
+			}
+			return least
+		case *ssa.BinOp:
+			arg, isLen := lenCallOf(x.X)
+			k, isK := constInt(x.Y)
+			op := x.Op
+			if !isLen {
+				arg, isLen = lenCallOf(x.Y)
+				k, isK = constInt(x.X)
+				op = flipTok(op)
+			}
+			if isLen && isK && sameSlice(arg, p) {
+				switch op {
+				case token.EQL, token.GEQ:
+					if k > here {
+						return k
+					}
+				case token.GTR:
+					if k+1 > here {
+						return k + 1
+					}
+				}
+			}
+		}
+		return here
+	}
+	least := impossible
+	n := 0
+	allInstrs(fn, func(b *ssa.BasicBlock, ins ssa.Instruction) {
+		if ret, ok := ins.(*ssa.Return); ok && len(ret.Results) == 1 {
+			n++
+			if v := when(ret.Results[0], b, 0); v < least {
+				least = v
+			}
+		}
+	})
+	if n == 0 || least == impossible {
+		return -1
+	}
+	return least
+}
+
+// minLenLocal: minLen without looking at the callers of the function (the bound must hold for
+// the helper's own argument, whoever calls it).
+func (lc *lenChecker) minLenLocal(x ssa.Value, at *ssa.BasicBlock, depth int) int64 {
+	saved := lc.noCallers
+	lc.noCallers = true
+	defer func() { lc.noCallers = saved }()
+	return lc.minLen(x, at, depth)
 }
 
 func flipTok(op token.Token) token.Token {
